@@ -45,9 +45,12 @@ func (b BigKeys) expand() []string {
 
 type Case struct {
 	Big     *BigKeys   `json:"big,omitempty"`
+	Tree    *Tree      `json:"tree,omitempty"` // a strictly ascending key set of any size, described compactly (tree_test.go)
 	Keys    []vk.Hex   `json:"keys"`
 	Sorted  bool       `json:"sorted"`            // strictly ascending: CountPrefixes is in domain
-	Queries [][3]int32 `json:"queries,omitempty"` // (s, e, m) for key sets larger than allRangesUpTo
+	Queries [][3]int32 `json:"queries,omitempty"` // (s, e, m): further CountPrefixes calls (any m >= 1)
+	AllM    int        `json:"allm,omitempty"`    // every m in 1..AllM on the sub-ranges (0,n) and (1,n)
+	Lay     vk.U64     `json:"lay,omitempty"`     // where the key bytes live (tree_test.go: layout); 0 = fresh strings / reused list
 	Class   string     `json:"class,omitempty"`
 }
 
@@ -56,13 +59,34 @@ func allRangesUpTo() int { return vk.Pick(8, 12) }
 var checker = &vk.Checker[Case]{
 	ID: "C16",
 	Rule: "key sets built from a random prefix tree (deep shared prefixes across the 8- and 16-byte chunk boundaries, a key that is a prefix of its successor, NUL suffix families a/a\\0/a\\0\\0, empty key, bytes >= 0x80), sorted and de-duplicated; FirstDiffBits also on unsorted lists and single keys; " +
-		"CountPrefixes(s,e,m) on strictly ascending sets: ALL sub-ranges with e-s>=2 when n<=8 (thorough n<=12; sampled otherwise) x m in {1,2,3,8,9,17,64} and, on three sub-ranges per case and on all sampled ones, m = total bits+5. Oracle: first differing bit by a bit loop; m0 = min over adjacent pairs in range; counter i = size of the set of (m0+i)-bit truncations compared as plain bit strings (bits+length), a shorter key counting as itself. " +
-		"Grid: all sorted subsets (size 2..5) of a 14-key pool; three very large key sets (70 001, 2^18+7 and 2^19+9 keys: every adjacent pair, sub-ranges around every power-of-two index). Non-trivial: >= 3 keys sharing >= 1 byte of prefix and (a key that is a prefix of its successor, or a common prefix > 8 bytes, or a NUL-suffix pair). Distinct by hash of the case.",
+		"3 of 10 cases: a strictly ascending key set described as a walk (Tree): 2..4096 keys (thorough 2^15), the number log-uniform, every key derived from its predecessor by an extension (prefix of successor, NUL families) or by raising a byte near the end, so that first differences are deep at every index; a common root of 0..8 KiB (thorough 128 KiB), log-uniform; optionally a stretch of keys sharing up to 8 KiB more than their neighbours (first differences thousands of bits apart inside one sub-range); optionally only every k-th key longer than 8 bytes; alphabets: all bytes / {00,ff,a,b} / {a,b}. " +
+		"Half of all cases hand the keys over as substrings of ONE larger buffer (foreign non-zero bytes around them): all at the same offset 0..7 from an 8-byte boundary, two different offsets, packed back to back, an offset per key, or a buffer per key; the other half as fresh heap strings / a reused list. " +
+		"CountPrefixes(s,e,m) on strictly ascending sets: ALL sub-ranges with e-s>=2 when n<=8 (thorough n<=12) x m in {1,2,3,8,9,17,64, one further m in 1..72 chosen by the case} and, on three sub-ranges per case, m = total bits+5, and (1 case in 8, and the whole pool grid) every m in 1..72 on (0,n) and (1,n); plus sampled (s,e,m) on every set: range length and start log-uniform, m uniform in 1..72 / log-uniform up to twice the key bits / around the longest key's bits / log-uniform up to 2^16 (thorough 2^21). " +
+		"Oracle: first differing byte, then first differing bit of those two bytes (compared with a plain bit loop in the grid); m0 = min over adjacent pairs in range; counter i = number of distinct (m0+i)-bit truncations compared as plain bit strings (bits+length), a shorter key counting as itself: by pairwise comparison (<= 64 keys, <= 12 on sampled queries), by a set (65..4096 keys) or by comparing neighbours (longer ranges; equal truncations of ascending keys are contiguous; cross-checked against the other two). For long counter vectors the counters are decided exactly at 0,1,2,m-2,m-1, around every first difference and key end of the range (48 spread over it when longer), at 3..65 and at pseudo-random indices within a cost budget, everywhere at or beyond the longest key (= e-s), and all of them for 1 <= c[i-1] <= c[i] <= e-s. " +
+		"Grid: all sorted subsets (size 2..5) of a 14-key pool; three very large key sets (70 001, 2^18+7 and 2^19+9 keys: every adjacent pair, sub-ranges around every power-of-two index); key lengths 0..41 and around 48..257 x every position of the first differing byte x both keys at the same offset 0..7 / different offsets inside one buffer; Tree sets of 2^k-1, 2^k, 2^k+1 and two other sizes per octave up to 2^14 keys (100..5000 and 10007 keys under every GOMAXPROCS setting of the procs process); common roots and deep stretches of 2^k-1, 2^k, 2^k+1 and two other lengths per octave up to 64 KiB; m = 2^k-1, 2^k, 2^k+1 and two others per octave up to 2^16. " +
+		"Non-trivial: >= 3 keys sharing >= 1 byte of prefix and (a key that is a prefix of its successor, or a common prefix > 8 bytes, or a NUL-suffix pair). Distinct by hash of the case.",
 	Check:    check,
 	Classify: classify,
 }
 
+// firstDiff: the first byte at which the keys differ, then the first bit (most significant first) at
+// which those two bytes differ; 8*min(len) when there is no such byte. (firstDiffBitwise is the plain bit
+// loop; TestGrid compares the two on every pair of the pool and of a few trees.)
 func firstDiff(a, b string) int32 {
+	n := min(len(a), len(b))
+	for i := 0; i < n; i++ {
+		if a[i] != b[i] {
+			for k := 8 * i; ; k++ {
+				if model.StrBit(a, k) != model.StrBit(b, k) {
+					return int32(k)
+				}
+			}
+		}
+	}
+	return int32(8 * n)
+}
+
+func firstDiffBitwise(a, b string) int32 {
 	n := 8 * min(len(a), len(b))
 	for k := 0; k < n; k++ {
 		if model.StrBit(a, k) != model.StrBit(b, k) {
@@ -101,6 +125,14 @@ func wantCount(keys []string, s, e, m int) (int32, []int32) {
 		}
 	}
 	out := make([]int32, m)
+	if e-s > 4096 {
+		// very long ranges: neighbours only (distinctAdj; cross-checked against the set below on every
+		// range of 65..4096 keys that a case asks for, and against the pairwise count in TestGrid)
+		for i := 0; i < m; i++ {
+			out[i] = distinctAdj(keys, s, e, int(m0)+i)
+		}
+		return m0, out
+	}
 	if e-s > 64 {
 		// large ranges: a set of (length, truncated bytes) instead of the quadratic pairwise comparison
 		for i := 0; i < m; i++ {
@@ -115,6 +147,9 @@ func wantCount(keys []string, s, e, m int) (int32, []int32) {
 				set[string(append(b, byte(l), byte(l>>8), byte(l>>16)))] = struct{}{}
 			}
 			out[i] = int32(len(set))
+			if adj := distinctAdj(keys, s, e, k); adj != out[i] {
+				vk.Infra(fmt.Sprintf("C16 oracle: neighbour count %d != set count %d for %d-bit prefixes of keys[%d:%d]", adj, out[i], k, s, e))
+			}
 		}
 		return m0, out
 	}
@@ -177,45 +212,84 @@ func (c Case) keyStrings() []string {
 	if c.Big != nil {
 		return c.Big.expand()
 	}
+	if c.Tree != nil {
+		return c.Tree.expand()
+	}
 	return vk.Strings(c.Keys)
 }
 
 var scratch vk.Scratch
 
 func check(c Case) *vk.Failure {
-	keys := c.keyStrings()
-	orig := c.keyStrings()
-	reused := c.Big == nil && scratch.Reuse(vk.SumStrings(orig))
-	if reused {
+	orig := c.oracleKeys()
+	if len(orig) == 0 {
+		return nil // FirstDiffBits is stated for non-empty lists (no generator produces this; a hand-made file could)
+	}
+	sorted := c.Sorted
+	if sorted && !strictlyAscending(orig) {
+		if c.Tree != nil || c.Big != nil {
+			vk.Infra(fmt.Sprintf("C16 harness: a described key set is not strictly ascending: %+v %+v", c.Tree, c.Big))
+			return nil
+		}
+		sorted = false // a hand-made file: only what holds for every list is decided
+	}
+	sum := vk.SumStrings(orig)
+	reused := c.Big == nil && scratch.Reuse(sum)
+	var keys []string
+	switch {
+	case c.Lay != 0:
+		// the key bytes live inside one larger buffer (substrings at chosen offsets from an 8-byte boundary)
+		keys = layout(orig, uint64(c.Lay))
+		if reused {
+			list := scratch.Strings(orig)
+			copy(list, keys)
+			keys = list
+		}
+	case reused:
 		keys = scratch.Strings(orig) // every other case: the same backing array as earlier calls, other keys
+	default:
+		keys = c.keyStrings()
 	}
 	var ds []int32
-	if f := vk.Try(fmt.Sprintf("FirstDiffBits(%x)", keys), func() { ds = sigbits.FirstDiffBits(keys) }); f != nil {
+	if f := vk.TryF(func() string {
+		return fmt.Sprintf("FirstDiffBits(%d keys: %.200x ...)", len(keys), keys[:min(len(keys), 24)])
+	}, func() { ds = sigbits.FirstDiffBits(keys) }); f != nil {
 		return f
 	}
 	if len(ds) != len(keys)-1 {
 		return vk.Failf("firstdiffbits-len", "FirstDiffBits of %d keys has %d entries", len(keys), len(ds))
 	}
+	wd := make([]int32, len(orig)-1)
+	for i := range wd {
+		wd[i] = firstDiff(orig[i], orig[i+1])
+	}
 	for i := range ds {
-		if want := firstDiff(orig[i], orig[i+1]); ds[i] != want {
-			return vk.Failf("firstdiffbits", "FirstDiffBits(...)[%d] for keys %x / %x = %d, want %d", i, orig[i], orig[i+1], ds[i], want)
+		if ds[i] != wd[i] {
+			return vk.Failf("firstdiffbits", "FirstDiffBits(...)[%d] of %d keys for keys %s / %s = %d, want %d (%s; key data at addresses = %d and %d mod 8)", i, len(keys), showKey(orig[i]), showKey(orig[i+1]), ds[i], wd[i], layLabel(uint64(c.Lay)), addrMod8(keys[i]), addrMod8(keys[i+1]))
 		}
 	}
-	if !c.Sorted || len(keys) < 2 {
+	if !sorted || len(keys) < 2 {
 		return nil
 	}
 	var sb *sigbits.SigBits
 	if f := vk.Try("sigbits.New", func() { sb = sigbits.New(keys) }); f != nil {
 		return f
 	}
-	if len(keys) <= allRangesUpTo() {
+	if c.Tree == nil && c.Big == nil && len(keys) <= allRangesUpTo() {
 		n := len(keys)
 		for s := 0; s < n; s++ {
 			for e := s + 2; e <= n; e++ {
-				ms := smallMs
+				// a further m per sub-range, 1..72 as a function of the case: no m below 73 is left out over a run
+				ms := append(append(make([]int, 0, 16), smallMs...), 1+int(vk.Mix(sum^uint64(s)<<8^uint64(e)<<20)%72))
+				full := (s == 0 && e == n) || (s == 1 && e == n)
 				// the long counter vector (beyond every key's length) on three sub-ranges per case
-				if (s == 0 && e == n) || (s == 1 && e == n) || (s == n/3 && e == s+2+(n-s-2)/2) {
-					ms = mValues(orig[s:e])
+				if full || (s == n/3 && e == s+2+(n-s-2)/2) {
+					ms = append(ms, bigM(orig[s:e]))
+				}
+				if full {
+					for m := 1; m <= min(c.AllM, 4096); m++ {
+						ms = append(ms, m)
+					}
 				}
 				maxM := 0
 				for _, m := range ms {
@@ -230,12 +304,18 @@ func check(c Case) *vk.Failure {
 			}
 		}
 	}
-	for _, q := range c.Queries {
+	for qi, q := range c.Queries {
 		s, e, m := int(q[0]), int(q[1]), int(q[2])
 		if s < 0 || e > len(keys) || e-s < 2 || m < 1 {
 			continue
 		}
-		if f := checkCount(sb, orig, s, e, m); f != nil {
+		var f *vk.Failure
+		if c.Big != nil || (c.Tree == nil && m <= 80 && e-s <= 64) {
+			f = checkCount(sb, orig, s, e, m)
+		} else {
+			f = checkCountSampled(sb, orig, wd, s, e, m, sum+uint64(qi)*0x9e3779b97f4a7c15)
+		}
+		if f != nil {
 			return f
 		}
 	}
@@ -252,12 +332,63 @@ func check(c Case) *vk.Failure {
 	return nil
 }
 
-func classify(c Case) (bool, []string) {
-	if c.Big != nil {
-		return true, []string{"class:very-large-key-set"}
+func showKey(k string) string {
+	if len(k) <= 96 {
+		return fmt.Sprintf("%x", k)
 	}
-	keys := vk.Strings(c.Keys)
-	labels := []string{}
+	return fmt.Sprintf("%x..(%d bytes)..%x", k[:24], len(k), k[len(k)-48:])
+}
+
+// oracleKeys is keyStrings for the oracle's and the classifier's (read-only) use: the expansion of the
+// last Tree is kept, so that a case is not expanded three times. The library never sees these strings.
+var treeMemo struct {
+	spec Tree
+	keys []string
+}
+
+func (c Case) oracleKeys() []string {
+	if c.Tree == nil {
+		return c.keyStrings()
+	}
+	if treeMemo.keys == nil || treeMemo.spec != *c.Tree {
+		treeMemo.spec, treeMemo.keys = *c.Tree, c.Tree.expand()
+	}
+	return treeMemo.keys
+}
+
+func octave(what string, v int) string {
+	if v < 8 {
+		return fmt.Sprintf("%s:%d", what, v)
+	}
+	b := bitLen(v) - 1
+	return fmt.Sprintf("%s:2^%d..2^%d-1", what, b, b+1)
+}
+
+func classify(c Case) (bool, []string) {
+	labels := []string{layLabel(uint64(c.Lay))}
+	mSeen := map[string]bool{}
+	for _, q := range c.Queries {
+		l := "m:1..3"
+		switch m := q[2]; {
+		case m >= 4096:
+			l = "m:>=4096"
+		case m > 72:
+			l = "m:73..4095"
+		case m > 3:
+			l = "m:4..72"
+		}
+		if !mSeen[l] {
+			mSeen[l] = true
+			labels = append(labels, l)
+		}
+	}
+	if c.AllM > 0 {
+		labels = append(labels, "every-m-up-to-allm")
+	}
+	if c.Big != nil {
+		return true, append(labels, "class:very-large-key-set")
+	}
+	keys := c.oracleKeys()
 	if c.Class != "" {
 		labels = append(labels, "class:"+c.Class)
 	}
@@ -266,7 +397,7 @@ func classify(c Case) (bool, []string) {
 	} else {
 		labels = append(labels, "unsorted")
 	}
-	prefixOfNext, deep, nul, share := false, false, false, false
+	prefixOfNext, deep, nul, share, deepLate, deep512, short, long := false, false, false, false, false, false, false, false
 	for i := 0; i+1 < len(keys); i++ {
 		a, b := keys[i], keys[i+1]
 		d := int(firstDiff(a, b))
@@ -276,6 +407,12 @@ func classify(c Case) (bool, []string) {
 		if d > 64 {
 			deep = true
 		}
+		if d >= 32 && i >= 39 {
+			deepLate = true
+		}
+		if d >= 4096 {
+			deep512 = true
+		}
 		if len(a) < len(b) && b[:len(a)] == a {
 			prefixOfNext = true
 			z := true
@@ -284,6 +421,10 @@ func classify(c Case) (bool, []string) {
 			}
 			nul = nul || z
 		}
+	}
+	for _, k := range keys {
+		short = short || len(k) <= 8
+		long = long || len(k) > 8
 	}
 	for _, k := range keys {
 		if k == "" {
@@ -297,16 +438,40 @@ func classify(c Case) (bool, []string) {
 	if deep {
 		labels = append(labels, "common-prefix>8bytes")
 	}
+	if deep512 {
+		labels = append(labels, "common-prefix>=512bytes")
+	}
+	if deepLate {
+		labels = append(labels, "first-difference>=32bits-at-pair-index>=39")
+	}
+	if short && long {
+		labels = append(labels, "keys<=8bytes-and-keys>8bytes-mixed")
+	}
 	if nul {
 		labels = append(labels, "nul-suffix-pair")
 	}
-	if len(keys) > allRangesUpTo() {
+	if c.Tree != nil {
+		labels = append(labels, octave("tree-keys", len(keys)), octave("tree-root-bytes", c.Tree.Root))
+	} else if len(keys) > allRangesUpTo() {
 		labels = append(labels, "large-set(sampled-ranges)")
 	}
 	return len(keys) >= 3 && share && (prefixOfNext || deep || nul), labels
 }
 
 func genCase(t *rapid.T) Case {
+	var c Case
+	if gen.Chance(t, 3, 10, "tree") {
+		c = genTree(t)
+	} else {
+		c = genPrefixTree(t)
+	}
+	if gen.Chance(t, 1, 2, "laid-out") {
+		c.Lay = vk.U64(genLay(t))
+	}
+	return c
+}
+
+func genPrefixTree(t *rapid.T) Case {
 	maxKeys := vk.Pick(40, 300)
 	if gen.Chance(t, 1, 6, "unsorted") {
 		// FirstDiffBits does not require order: permuted / repeated keys
@@ -342,6 +507,16 @@ func genCase(t *rapid.T) Case {
 			c.Queries = append(c.Queries, [3]int32{int32(s), int32(e), int32(mv[gen.Uniform(t, len(mv), "m")])})
 		}
 		c.Queries = append(c.Queries, [3]int32{0, int32(len(keys)), 9}, [3]int32{1, int32(len(keys)), 64})
+	}
+	if len(keys) >= 2 {
+		// any m >= 1 on any sub-range (the enumerated sub-ranges use a fixed list of m)
+		for i := 0; i < 3; i++ {
+			s, e := genRange(t, len(keys), "xq")
+			c.Queries = append(c.Queries, [3]int32{int32(s), int32(e), int32(genM(t, bigM(keys[s:e]), "xq.m"))})
+		}
+		if len(keys) <= allRangesUpTo() && gen.Chance(t, 1, 8, "allm") {
+			c.AllM = 72
+		}
 	}
 	return c
 }
@@ -379,7 +554,15 @@ func FuzzProp(f *testing.F) {
 		if len(keys) > allRangesUpTo() {
 			keys = keys[:allRangesUpTo()]
 		}
-		checker.Run(t, Case{Keys: vk.HexStrings(keys), Sorted: true, Class: "fuzz"})
+		c := Case{Keys: vk.HexStrings(keys), Sorted: true, Class: "fuzz"}
+		if h := vk.Hash64(data); h&1 == 1 { // half of the inputs: the keys are substrings of one buffer
+			offB := int(h >> 3 & 7)
+			if h>>6&1 == 0 {
+				offB = int(h >> 7 & 7)
+			}
+			c.Lay = vk.U64(mkLay(int(h>>1&3), int(h>>3&7), offB, h>>10&0xffff))
+		}
+		checker.Run(t, c)
 	})
 }
 
@@ -400,8 +583,18 @@ func TestGrid(t *testing.T) {
 		if len(keys) < 2 || len(keys) > 5 {
 			continue
 		}
-		checker.Run(t, Case{Keys: vk.HexStrings(keys), Sorted: true, Class: "grid"})
+		c := Case{Keys: vk.HexStrings(keys), Sorted: true, Class: "grid", AllM: 72}
+		if sub%3 != 0 { // two thirds: the keys are substrings of one buffer (every mode, every offset over the grid)
+			off := sub / 3 % 8
+			c.Lay = vk.U64(mkLay(sub/24%4, off, off, uint64(sub)))
+		}
+		checker.Run(t, c)
 	}
+	gridOracles(t)
+	gridAlignment(t)
+	gridTreeSizes(t)
+	gridRootLengths(t)
+	gridCounterLengths(t)
 	// very large key sets (size thresholds of any batched / parallel implementation): every adjacent
 	// pair is compared; CountPrefixes on sub-ranges around every power-of-two index and on keyed ones
 	for _, spec := range []BigKeys{{N: 1<<18 + 7, Stride: 3}, {N: 1<<19 + 9, Stride: 1}, {N: 70001, Stride: 11}} {
@@ -430,5 +623,189 @@ func TestGrid(t *testing.T) {
 		c.Queries = append(c.Queries, [3]int32{0, int32(spec.N), 2})
 		checker.Run(t, c)
 	}
-	vk.MarkExhaustive("all sorted subsets of size 2..5 of a 14-key pool x all sub-ranges x 8 values of m")
+	vk.MarkExhaustive("all sorted subsets of size 2..5 of a 14-key pool x all sub-ranges x 9 values of m (x every m in 1..72 on the sub-ranges (0,n) and (1,n))")
+}
+
+// gridOracles: the two first-difference oracles agree, and the linear-time prefix count agrees with the
+// pairwise one (a disagreement is a harness problem, not a finding).
+func gridOracles(t *testing.T) {
+	sets := [][]string{append([]string(nil), Pool...)}
+	sort.Strings(sets[0])
+	for i := 0; i < 6; i++ {
+		sets = append(sets, Tree{N: 60, Seed: vk.U64(900 + i), Root: []int{0, 3, 9, 17, 70, 0}[i], Tail: 3 + 4*i, Alpha: i % 3, LongEvery: []int{0, 0, 4, 0, 0, 3}[i]}.expand())
+	}
+	for _, keys := range sets {
+		if !strictlyAscending(keys) {
+			vk.Infra("C16 harness: a generated key set is not strictly ascending")
+			t.Fatalf("harness: key set not strictly ascending: %x", keys)
+		}
+		for _, a := range keys {
+			for _, b := range keys {
+				if firstDiff(a, b) != firstDiffBitwise(a, b) {
+					vk.Infra("C16 harness: the two first-difference oracles disagree")
+					t.Fatalf("harness: oracles disagree on %x / %x", a, b)
+				}
+			}
+		}
+		for s := 0; s < len(keys); s += 7 {
+			for e := s + 2; e <= len(keys); e += 5 {
+				for k := 0; k < 8*30; k += 1 + k/40 {
+					if distinctAdj(keys, s, e, k) != distinctDef(keys, s, e, k) {
+						vk.Infra("C16 harness: the two prefix-count oracles disagree")
+						t.Fatalf("harness: prefix counts disagree on %x [%d,%d) k=%d", keys, s, e, k)
+					}
+				}
+			}
+		}
+	}
+}
+
+// gridAlignment: every length 0..41 (and around 48, 56, 64, 72, 128, 256) x every position of the first
+// differing byte (long keys: the first 18 and the last 18) x how the two keys of a pair sit relative to
+// an 8-byte boundary: both at the same offset 0..7 and (even lengths, long keys) one aligned and one not
+// or two different odd offsets. The keys
+// of one case are substrings of one buffer; even entries are the base key, odd entries a variant (one
+// byte changed; the same with a tail appended; a proper prefix). FirstDiffBits only (the list is not sorted).
+func gridAlignment(t *testing.T) {
+	lengths := []int{}
+	for l := 0; l <= 41; l++ {
+		lengths = append(lengths, l)
+	}
+	lengths = append(lengths, 47, 48, 49, 55, 56, 57, 63, 64, 65, 71, 72, 73, 127, 128, 129, 255, 256, 257)
+	var offs [][2]int
+	for x := 0; x < 8; x++ {
+		offs = append(offs, [2]int{x, x})
+	}
+	mixed := [][2]int{{0, 1}, {1, 0}, {0, 4}, {4, 0}, {0, 7}, {7, 0}, {3, 5}, {5, 3}, {2, 6}}
+	for _, l := range lengths {
+		base := make([]byte, l)
+		for i := range base {
+			base[i] = byte(vk.Mix(uint64(l)<<16+uint64(i))) | 1
+		}
+		var keys []string
+		for p := 0; p < l; p++ {
+			if l > 41 && p >= 18 && p < l-18 {
+				continue
+			}
+			v := append([]byte(nil), base...)
+			v[p] ^= 1 << uint((p+l)%8)
+			keys = append(keys, string(base), string(v), string(base), string(v)+"\x00tail")
+		}
+		for k := 1; k <= min(l, 9); k++ {
+			keys = append(keys, string(base), string(base[:l-k]))
+		}
+		keys = append(keys, string(base), string(base), string(base)+"\x00", string(base))
+		use := offs
+		if l%2 == 0 || l > 41 {
+			use = append(append([][2]int(nil), offs...), mixed...)
+		}
+		for _, o := range use {
+			checker.Run(t, Case{Keys: vk.HexStrings(keys), Sorted: false, Class: "alignment-grid", Lay: vk.U64(mkLay(layTwoOffsets, o[0], o[1], uint64(l)))})
+		}
+	}
+}
+
+func rangeQueries(n, i int, ms []int) [][3]int32 {
+	var out [][3]int32
+	add := func(s, e int) {
+		if s >= 0 && e <= n && e-s >= 2 {
+			out = append(out, [3]int32{int32(s), int32(e), int32(ms[(i+len(out))%len(ms)])})
+		}
+	}
+	add(0, n)
+	add(1, n)
+	add(n-2, n)
+	add(n-3, n)
+	add(n/2, n)
+	add(n-min(n, 41), n)
+	add(n/3, n/3+2+(n-n/3-2)/2)
+	for j := uint64(0); j < 3; j++ {
+		s := int(vk.Mix(uint64(n)*31+j) % uint64(n-1))
+		add(s, s+2+int(vk.Mix(uint64(n)*37+j)%uint64(n-s-1)))
+	}
+	return out
+}
+
+// gridTreeSizes: key sets of 2^k-1, 2^k, 2^k+1 keys and two other sizes in every octave up to 2^14
+// (thorough 2^17), with deep first differences up to the last pair; sub-ranges at the end, the start, the
+// middle. In a process that varies GOMAXPROCS the sets of 100..5000 keys (and one of 10007) meet every setting.
+func gridTreeSizes(t *testing.T) {
+	sizes := append(sizesSweep(1, vk.Pick(uint(14), uint(17)), 1), 10007)
+	for i, n := range sizes {
+		if n < 2 {
+			continue
+		}
+		spec := Tree{N: n, Seed: vk.U64(vk.Mix(uint64(n)) >> 8), Root: []int{0, 3, 11, 20}[i%4], Tail: 6 + i%9, Alpha: i % 3}
+		if i%5 == 4 {
+			spec.LongEvery, spec.Tail = 4, 5
+		}
+		c := Case{Tree: &spec, Sorted: true, Class: "tree-size-sweep"}
+		c.Queries = rangeQueries(n, i, []int{1 + i%72, 9, 64, 8*(spec.Root+spec.Tail+24) + 5, 200, 3, 17})
+		if i%4 != 3 {
+			c.Lay = vk.U64(mkLay(i%4, i*3%8, i*3%8, uint64(i)))
+		}
+		if (n >= 100 && n <= 5000) || n == 10007 {
+			vk.ProcsSweep(func() { checker.Run(t, c) })
+		} else {
+			checker.Run(t, c)
+		}
+	}
+}
+
+// gridRootLengths: a prefix of 2^k-1, 2^k, 2^k+1 bytes (and two other lengths per octave) up to 2^16 bytes
+// (thorough 2^20) shared by 6 keys - and by 50 keys up to 4 KiB - whose first differences lie right behind it.
+func gridRootLengths(t *testing.T) {
+	for i, r := range sizesSweep(3, vk.Pick(uint(16), uint(20)), 2) {
+		for _, n := range []int{6, 50} {
+			if n == 50 && r > 4097 {
+				continue
+			}
+			spec := Tree{N: n, Seed: vk.U64(vk.Mix(uint64(r)+uint64(n)) >> 8), Root: r, Tail: 1 + i%5, Alpha: i % 3}
+			c := Case{Tree: &spec, Sorted: true, Class: "root-length-sweep"}
+			ms := []int{1 + i%72, 64, 300, 8*(spec.Tail+24) + 3, 2}
+			for s := 0; s < n; s += 1 + n/8 {
+				for e := s + 2; e <= n; e += 1 + n/8 {
+					c.Queries = append(c.Queries, [3]int32{int32(s), int32(e), int32(ms[(s+e+i)%len(ms)])})
+				}
+			}
+			c.Lay = vk.U64(mkLay((i+1)%4, i%8, i%8, uint64(i)))
+			if i%5 == 0 {
+				c.Lay = 0
+			}
+			checker.Run(t, c)
+		}
+		// the same lengths as the distance between two first differences of one sub-range: 12 keys, the
+		// 5th .. 9th share r more bytes than the others; counter vectors that reach beyond that distance
+		spec := Tree{N: 12, Seed: vk.U64(vk.Mix(uint64(r)+99) >> 8), Root: i % 4, Tail: 3, Deep: r, DeepAt: 4, DeepRun: 4}
+		c := Case{Tree: &spec, Sorted: true, Class: "deep-stretch-sweep"}
+		for j, q := range [][2]int32{{0, 12}, {3, 9}, {2, 7}, {4, 8}, {5, 9}, {3, 12}} {
+			c.Queries = append(c.Queries, [3]int32{q[0], q[1], int32([]int{8*r + 120, 8*r + 40, 64, 8*r + 8*30}[(i+j)%4])})
+		}
+		if i%3 != 0 {
+			c.Lay = vk.U64(mkLay(i%4, (i+3)%8, (i+3)%8, uint64(i)))
+		}
+		checker.Run(t, c)
+	}
+}
+
+// gridCounterLengths: m = 2^k-1, 2^k, 2^k+1 and two other values per octave up to 2^16 (thorough 2^21) on
+// three key sets (short keys; 40 keys behind a 9-byte prefix; 5 keys behind a 600-byte prefix).
+func gridCounterLengths(t *testing.T) {
+	ms := sizesSweep(0, vk.Pick(uint(16), uint(21)), 3)
+	mk := func(c Case, n int) Case {
+		for i, m := range ms {
+			if m < 1 {
+				continue
+			}
+			c.Queries = append(c.Queries, [3]int32{0, int32(n), int32(m)})
+			if s := 1 + i%(n-2); n > 3 {
+				c.Queries = append(c.Queries, [3]int32{int32(s), int32(s + 2 + i%(n-s-1)), int32(m)})
+			}
+		}
+		return c
+	}
+	short := []string{"a", "a\x00", "ab", "abcdefgh", "abcdefghi", "b"}
+	checker.Run(t, mk(Case{Keys: vk.HexStrings(short), Sorted: true, Class: "counter-length-sweep"}, len(short)))
+	checker.Run(t, mk(Case{Tree: &Tree{N: 40, Seed: 77, Root: 9, Tail: 7}, Sorted: true, Class: "counter-length-sweep", Lay: vk.U64(mkLay(layTwoOffsets, 3, 3, 1))}, 40))
+	checker.Run(t, mk(Case{Tree: &Tree{N: 5, Seed: 78, Root: 600, Tail: 3}, Sorted: true, Class: "counter-length-sweep"}, 5))
 }
